@@ -20,7 +20,22 @@ PIDX = {"read": 0, "write": 1, "update": 2, "delete": 3, "admin": 4}
 FULLP = lambda p: "ego.table." + p      # noqa: E731
 
 PLAIN_TABLES = ["t", "u", "c"]
+ROWP = {"read": "read", "insert": "write", "update": "update", "delete": "delete"}      # row operation -> permission
+
+
+def rowq(su, d, t, op, tx="", sa=False):
+    return {"k": "row", "su": su, "sa": sa, "u": su, "d": d, "t": t, "op": op, "tx": tx, "perms": ["ego.table." + ROWP[op]]}
+
+
 CORPUS = [
+    # real row requests, stand-alone and inside REST transactions (@begin / ?transaction= / @commit, @rollback), every
+    # operation: bob holds read only, carol nothing, alice created the table
+    [{"k": "dsn", "d": "d1", "r": True}, {"k": "tcreate", "u": "alice", "d": "d1", "t": "t"},
+     {"k": "grant", "u": "bob", "d": "d1", "t": "t", "perms": ["+ego.table.read"]}]
+    + [rowq("bob", "d1", "t", op, tx) for op in ("read", "insert", "update", "delete") for tx in ("", "commit", "rollback")]
+    + [rowq("carol", "d1", "t", op, tx) for op in ("read", "delete") for tx in ("", "commit")]
+    + [rowq("alice", "d1", "t", op, tx) for op in ("insert", "read", "update", "delete") for tx in ("", "commit")]
+    + [rowq("carol", "d1", "t", "delete", "commit", sa=True)],
     # a grant must not survive drop + re-creation of the table by somebody else (stale cached grants)
     [{"k": "dsn", "d": "d1", "r": True}, {"k": "tcreate", "u": "alice", "d": "d1", "t": "t"},
      {"k": "auth", "su": "bob", "sa": False, "u": "bob", "d": "d1", "t": "t", "perms": ["ego.table.read"]},
@@ -31,6 +46,27 @@ CORPUS = [
      {"k": "auth", "su": "bob", "sa": False, "u": "bob", "d": "d1", "t": "t", "perms": ["ego.table.read"]},
      {"k": "auth", "su": "alice", "sa": False, "u": "alice", "d": "d1", "t": "t", "perms": ["ego.table.delete"]},
      {"k": "auth", "su": "carol", "sa": False, "u": "carol", "d": "d1", "t": "t", "perms": ["ego.table.delete"]}],
+    # the same table name and grantee in two DSNs: a grant for d2.t must land on d2.t
+    [{"k": "dsn", "d": "d1", "r": True}, {"k": "dsn", "d": "d2", "r": True},
+     {"k": "grant", "u": "bob", "d": "d1", "t": "t", "perms": ["+ego.table.read"]},
+     {"k": "grant", "u": "bob", "d": "d2", "t": "t", "perms": ["+ego.table.delete"]},
+     {"k": "auth", "su": "bob", "sa": False, "u": "bob", "d": "d1", "t": "t", "perms": ["ego.table.delete"]},
+     {"k": "auth", "su": "bob", "sa": False, "u": "bob", "d": "d2", "t": "t", "perms": ["ego.table.delete"]},
+     {"k": "auth", "su": "bob", "sa": False, "u": "bob", "d": "d1", "t": "t", "perms": ["ego.table.read"]},
+     {"k": "auth", "su": "bob", "sa": False, "u": "bob", "d": "d2", "t": "t", "perms": ["ego.table.read"]}],
+    # bulk removal of grants (no ?user=, and the @all pseudo DSN) after the grant was exercised
+    [{"k": "dsn", "d": "d1", "r": True}, {"k": "dsn", "d": "d2", "r": True},
+     {"k": "grant", "u": "bob", "d": "d1", "t": "t", "perms": ["+ego.table.read"]},
+     {"k": "grant", "u": "carol", "d": "d1", "t": "t", "perms": ["+ego.table.read"]},
+     {"k": "grant", "u": "bob", "d": "d2", "t": "u", "perms": ["+ego.table.delete"]},
+     {"k": "auth", "su": "bob", "sa": False, "u": "bob", "d": "d1", "t": "t", "perms": ["ego.table.read"]},
+     {"k": "auth", "su": "carol", "sa": False, "u": "carol", "d": "d1", "t": "t", "perms": ["ego.table.read"]},
+     {"k": "auth", "su": "bob", "sa": False, "u": "bob", "d": "d2", "t": "u", "perms": ["ego.table.delete"]},
+     {"k": "delete", "d": "d1", "t": "t"},
+     {"k": "auth", "su": "bob", "sa": False, "u": "bob", "d": "d1", "t": "t", "perms": ["ego.table.read"]},
+     {"k": "auth", "su": "carol", "sa": False, "u": "carol", "d": "d1", "t": "t", "perms": ["ego.table.read"]},
+     {"k": "delete", "t": "u"},
+     {"k": "auth", "su": "bob", "sa": False, "u": "bob", "d": "d2", "t": "u", "perms": ["ego.table.delete"]}],
     # successful access, then every way a grant can disappear, then the same access again
     [{"k": "dsn", "d": "d1", "r": True}, {"k": "dsn", "d": "d2", "r": True},
      {"k": "grant", "u": "bob", "d": "d1", "t": "t", "perms": ["+ego.table.read", "+ego.table.update"]},
@@ -105,8 +141,11 @@ def gen_history(rng):
             h.append({"k": "tcreate", "u": u, "d": d, "t": t if t in PLAIN_TABLES else rng.choice(PLAIN_TABLES)})
         elif r < 0.65:
             h.append({"k": "tdrop", "d": d, "t": t if t in PLAIN_TABLES else rng.choice(PLAIN_TABLES)})
-        elif r < 0.80 and any(o["k"] == "auth" for o in h):
-            h.append(dict(rng.choice([o for o in h if o["k"] == "auth"])))      # the same key asked again
+        elif r < 0.74:
+            h.append(rowq(u, d, t if t in PLAIN_TABLES else rng.choice(PLAIN_TABLES), rng.choice(list(ROWP)),
+                          rng.choice(["", "", "commit", "commit", "rollback"]), sa=rng.random() < 0.08))
+        elif r < 0.84 and any(o["k"] in ("auth", "row") for o in h):
+            h.append(dict(rng.choice([o for o in h if o["k"] in ("auth", "row")])))      # the same key asked again
         else:
             sa = rng.random() < 0.12
             su = u
@@ -149,15 +188,16 @@ def spec_run(h):
         elif k == "delete":
             rows = [r for r in rows if not ((o.get("u") is None or r["u"] == o["u"]) and (o.get("d") is None or r["d"] == o["d"])
                                             and (o.get("t") in (None, "") or r["t"] == o["t"]))]
-        elif k == "auth":
+        elif k in ("auth", "row"):
             p = o["perms"][0].split(".")[-1]
             m = [r for r in rows if (r["u"], r["d"], r["t"]) == (o["u"], o["d"], o["t"])]
             has = any(p in r["p"] or "admin" in r["p"] for r in m)
             exactly = len(m) == 1 and has
             if o["sa"] and o["u"] == o["su"]:
-                out.append((True, True, "admin"))
+                out.append((o["d"] in dsns or k == "auth", True, "admin"))
             elif o["d"] not in dsns:
-                out.append((False, True if "." in o["d"] else False, "no-dsn"))
+                # Authorized refuses; a row request fails before the grant check with another status (nothing to compare)
+                out.append((False, True if ("." in o["d"] or k == "row") else False, "no-dsn"))
             elif not dsns[o["d"]]:
                 out.append((True, True, "unrestricted"))
             else:
@@ -191,6 +231,8 @@ def cop(o):
     if k == "delete":
         t = o.get("t")
         return "IO (ODelete %s %s %s)" % (copt(o.get("u")), copt(o.get("d")), copt(t if t else None))
+    if k == "row":
+        return "IR %s %s %s %s (perm_of %d)" % (cstr(o["su"]), "true" if o["sa"] else "false", cstr(o["d"]), cstr(o["t"]), PIDX[ROWP[o["op"]]])
     if k == "auth":
         ps = ";".join("perm_of %d" % PIDX[x.split(".")[-1]] for x in o["perms"])
         return "IQ %s %s %s %s %s [%s]" % (cstr(o["su"]), "true" if o["sa"] else "false", cstr(o["u"]), cstr(o["d"]), cstr(o["t"]), ps)
@@ -200,24 +242,46 @@ def cop(o):
 GUARD = re.compile(r'!\s*(session\.Admin|isAdmin)\s*&&\s*!Authorized\(session,\s*(session\.User|user),\s*dsnName\s*\+\s*"\."\s*\+\s*(tableName|rawTableName),\s*defs\.Table(Read|Write|Update|Delete)Permission\)')
 
 
-def callsite_check(ck):
-    """Every Authorized( call in rows.go / rowsAbstract.go has the modelled shape (inclusion in a proved-safe shape)."""
-    total = 0
-    for fn in ("rows.go", "rowsAbstract.go"):
-        src = open(os.path.join(vf.REPO, "internal/server/tables", fn)).read()
-        code = "\n".join(l for l in src.split("\n") if not l.strip().startswith("//"))
-        calls = [m.start() for m in re.finditer(r"\bAuthorized\(", code)]
-        good = [m for m in GUARD.finditer(code)]
-        total += len(calls)
-        ck.add_obligations(len(calls), len(good))
-        if len(good) != len(calls):
-            ck.violation("guard-shape", "%s: %d calls of Authorized, only %d have the modelled guard shape "
-                         "'!admin && !Authorized(session, user, dsnName+\".\"+table, defs.Table<Op>Permission)'" % (fn, len(calls), len(good)),
-                         replay={"file": fn}, found_input=False)
-    if total < 4:
-        ck.violation("guard-shape", "expected at least 4 guarded row endpoints, found %d Authorized calls" % total,
-                     replay={}, found_input=False)
-    return total
+OUTER_OK = {"rows.go": {"db.Restricted", "err == nil && db != nil", "err == nil && db != nil && db.Handle != nil"}, "rowsAbstract.go": {"err == nil && db != nil"}}
+
+
+def callsite_check(ck, binp):
+    """Every Authorized( call in rows.go / rowsAbstract.go (read with go/ast from the tree being checked) has the
+    modelled shape: guard condition '!admin && !Authorized(session, user, dsnName+"."+table, defs.Table<Op>Permission)',
+    body ending in a return, not in an else branch, and every enclosing condition is one of the modelled ones
+    (in rows.go exactly 'db.Restricted' must enclose it) - inclusion in a proved-safe shape."""
+    outp = os.path.join(ck.work, "shape.json")
+    rc, log = vf.run_bin(binp, "^TestVerifC43Shape$", {"VERIF_SRC": os.path.join(vf.REPO, "internal/server/tables"), "VERIF_OUT": outp}, cwd=ck.work)
+    if rc != 0 or not os.path.exists(outp):
+        ck.violation("guard-shape", "cannot read the guard call sites:\n" + log[-1200:], replay={"log": log[-3000:]}, found_input=False)
+        return 0
+    sites = json.load(open(outp))
+    ops = {"rows.go": set(), "rowsAbstract.go": set()}
+    for st in sites:
+        problems = []
+        m = GUARD.fullmatch(st["guard"].replace("\n", " ").strip())
+        if not m:
+            problems.append("guard condition is %r" % st["guard"])
+        else:
+            ops[st["file"]].add(m.group(4))
+        if not st["body_returns"]:
+            problems.append("the guard's body does not end in a return")
+        if st["in_else"]:
+            problems.append("the call sits in an else branch")
+        for c in st["outer"]:
+            if c not in OUTER_OK[st["file"]]:
+                problems.append("enclosed by the unmodelled condition %r" % c)
+        if st["file"] == "rows.go" and "db.Restricted" not in st["outer"]:
+            problems.append("not enclosed by 'if db.Restricted'")
+        ck.add_obligations(1, 0 if problems else 1)
+        if problems:
+            ck.violation("guard-shape", "%s:%d %s: the table-grant check no longer has the modelled shape: %s" % (
+                st["file"], st["line"], st["func"], "; ".join(problems)), replay={"site": st}, found_input=False)
+    for fn, need in (("rows.go", {"Read", "Write", "Update", "Delete"}), ("rowsAbstract.go", {"Read", "Write", "Update"})):
+        ck.add_obligations(1, 1 if need <= ops[fn] else 0)
+        if not need <= ops[fn]:
+            ck.violation("guard-shape", "%s: no modelled table-grant check for %s" % (fn, sorted(need - ops[fn])), replay={"file": fn}, found_input=False)
+    return len(sites)
 
 
 def run(ck):
@@ -233,15 +297,15 @@ def run(ck):
               "the guard at the row endpoints is '!admin && !Authorized(session, user, dsnName+\".\"+table, perm)' inside 'if db.Restricted' (shape re-read from the source)")
     ck.trusted("harness/C43/c43_test.go (in-package overlay, real SQLite file per history), props/C43.py generator, spec and comparison")
     ck.coq_stage(GROUP, theorems=THEOREMS)
-    ncalls = callsite_check(ck)
-
     pkg = "internal/server/tables"
-    ok, binp = vf.go_test_build(ck.work, pkg, {pkg + "/zz_verif_c43_test.go": os.path.join(vf.HARNESS, "C43", "c43_test.go")}, "c43.test")
+    ok, binp = vf.go_test_build(ck.work, pkg, {pkg + "/zz_verif_c43_test.go": os.path.join(vf.HARNESS, "C43", "c43_test.go"),
+                                               pkg + "/zz_verif_c43_shape_test.go": os.path.join(vf.HARNESS, "C43", "c43_shape_test.go")}, "c43.test")
     if not ok:
         ck.violation("harness-build", "harness for %s does not build:\n%s" % (pkg, binp[-1500:]), replay={"log": binp[-3000:]}, found_input=False)
         return
+    ncalls = callsite_check(ck, binp)
     hs = [list(h) for h in CORPUS]
-    nh = 80 if quick else 800
+    nh = 64 if quick else 640
     while len(hs) < nh:
         hs.append(gen_history(ck.rng))
     if ck.replay_file:
@@ -262,7 +326,7 @@ def run(ck):
         return
 
     # ---- property oracle on the real answers
-    nontriv, nq, dist = set(), 0, {"admin": 0, "unrestricted": 0, "restricted": 0, "no-dsn": 0}
+    nontriv, nq, dist, nrow = set(), 0, {"admin": 0, "unrestricted": 0, "restricted": 0, "no-dsn": 0}, {}
     restricted_at = []
     for h in hs:                     # DSN state at each query, for the oracle against the real store
         cur, l = {}, []
@@ -271,48 +335,54 @@ def run(ck):
                 cur[o["d"]] = o["r"]
             elif o["k"] == "deldsn":
                 cur.pop(o["d"], None)
-            elif o["k"] == "auth":
+            elif o["k"] in ("auth", "row"):
                 l.append(cur.get(o["d"]))
         restricted_at.append(l)
     for hi, (h, ans) in enumerate(zip(hs, obs)):
         spec = spec_run(h)
-        qs = [o for o in h if o["k"] == "auth"]
+        qs = [o for o in h if o["k"] in ("auth", "row")]
         if len(ans) != len(qs):
             ck.violation("harness-run", "history %d: %d answers for %d queries" % (hi, len(ans), len(qs)), replay={"histories": [h]}, found_input=False)
             continue
-        qpos = [i for i, o in enumerate(h) if o["k"] == "auth"]
+        qpos = [i for i, o in enumerate(h) if o["k"] in ("auth", "row")]
         for qi, (q, a, (lo, hi_, why)) in enumerate(zip(qs, ans, spec)):
             nq += 1
             dist[why] += 1
             prefix = h[:qpos[qi] + 1]
             if why == "restricted" and any(o["k"] in ("grant", "create") for o in prefix):
                 nontriv.add(json.dumps(prefix, sort_keys=True))
+            if a == 3:                     # the transaction could not be opened: nothing was decided
+                continue
             got = bool(a)
+            what = "Authorized" if q["k"] == "auth" else "%s rows%s" % (q["op"].upper(), " inside a transaction (@begin .. @%s)" % q["tx"] if q["tx"] else "")
+            if q["k"] == "row":
+                nrow[(q["op"], q["tx"])] = nrow.get((q["op"], q["tx"]), 0) + 1
             # the permission STORE at this moment: a grant that is no longer recorded must not authorize
             if qi < len(stores[hi]) and got and not (q["sa"] and q["u"] == q["su"]) and restricted_at[hi][qi] is True \
                     and "." not in q["d"] and stores[hi][qi][1] == 0:
                 ck.violation("authorized-not-in-store",
-                             "Authorized(%s, %s, %s.%s, %s) = true although table_perms holds %d row(s) for that user, DSN and table and none allows it "
-                             "(a grant that is no longer recorded still authorizes)" % (q["su"], q["u"], q["d"], q["t"], q["perms"][0], stores[hi][qi][0]),
+                             "%s(%s, %s, %s.%s, %s) passed although table_perms holds %d row(s) for that user, DSN and table and none allows it "
+                             "(a grant that is not recorded authorizes)" % (what, q["su"], q["u"], q["d"], q["t"], q["perms"][0], stores[hi][qi][0]),
                              replay={"histories": [prefix]})
             if got and not hi_:
                 dotted = "." in q["d"]
                 ck.violation("dotted-dsn-crosstalk" if dotted else "authorized-without-grant",
-                             "Authorized(%s%s, %s, %s.%s, %s) = true although the history holds no grant of it for that user, DSN and table" % (
-                                 q["su"], " admin" if q["sa"] else "", q["u"], q["d"], q["t"], q["perms"][0]),
+                             "%s(%s%s, %s, %s.%s, %s) = allowed although the history holds no grant of it for that user, DSN and table" % (
+                                 what, q["su"], " admin" if q["sa"] else "", q["u"], q["d"], q["t"], q["perms"][0]),
                              replay={"histories": [prefix]})
             if lo and not got:
                 dotted = "." in q["d"]
                 ck.violation("dotted-dsn-denied" if dotted else "denied-despite-grant",
-                             "Authorized(%s%s, %s, %s.%s, %s) = false although %s" % (
-                                 q["su"], " admin" if q["sa"] else "", q["u"], q["d"], q["t"], q["perms"][0],
+                             "%s(%s%s, %s, %s.%s, %s) = refused although %s" % (
+                                 what, q["su"], " admin" if q["sa"] else "", q["u"], q["d"], q["t"], q["perms"][0],
                                  {"admin": "the caller is an administrator", "unrestricted": "the DSN is not restricted",
                                   "restricted": "exactly one recorded grant allows it"}[why]),
                              replay={"histories": [prefix]})
     ck.cov["evaluations"] = nq
     ck.cov["distinct_nontrivial"] = len(nontriv)
     ck.cov["input_distribution"] = {"histories": len(hs), "queries": nq, "by_decision_class": dist,
-                                    "guarded_call_sites": ncalls, "corpus_histories": len(CORPUS)}
+                                    "guarded_call_sites": ncalls, "corpus_histories": len(CORPUS),
+                                    "row_requests_by_op_and_transaction": {"%s/%s" % (k[0], k[1] or "stand-alone"): v for k, v in sorted(nrow.items())}}
     for h, a in list(zip(hs, obs))[:2] + list(zip(hs, obs))[len(CORPUS):len(CORPUS) + 2]:
         ck.sample({"history": h, "real_answers": a})
 
@@ -327,7 +397,7 @@ def run(ck):
     terms = []
     for i, (h, ans) in enumerate(zip(hs, obs)):
         lines.append("Definition h%d : list item := [%s]." % (i, ";\n ".join(cop(o) for o in h)))
-        terms.append("(if nlist_eqb (replay empty h%d) %s then [] else [%d%%nat])" % (i, vf.vN(ans), i))
+        terms.append("(if ans_match (replay empty h%d) %s then [] else [%d%%nat])" % (i, vf.vN(ans), i))
     okk, res = vf.coq_eval(GROUP, ck.work, "cases", "\n".join(lines), {"corr": "(%s : list nat)" % (" ++ ".join(terms) or "[]")})
     if not okk:
         ck.violation("correspondence-eval", "model evaluation failed:\n" + str(res)[-1500:], replay={"log": str(res)[-3000:]}, found_input=False)
